@@ -181,7 +181,7 @@ def st_mem_infirst(xs):
 
 
 def st_fold_dedup(s, xs):
-    """lemma.fold_dedup (ASSUMED, validated against CPython lists by selftest): adding the de-duplicated sequence
+    """lemma.fold_dedup (proved in Lean: lemmas/Seq.lean `lemma_fold_dedup`; also validated against CPython lists by selftest): adding the de-duplicated sequence
     (what tools.Unique(xs) holds) to s equals adding xs to s -- both append the unseen names in the order given."""
     u = fold_add(empty, xs, slen(xs))
     return fold_add(s, u, slen(u)) == fold_add(s, xs, slen(xs))
@@ -194,7 +194,7 @@ def complement(T):
 
 
 def st_erase_fold_keep(s, T, Tc):
-    """lemma.erase_fold_keep (ASSUMED, validated against CPython lists by selftest): removing from a duplicate-free s, one by one,
+    """lemma.erase_fold_keep (proved in Lean: lemmas/Seq.lean `lemma_erase_fold_keep`; also validated against CPython lists by selftest): removing from a duplicate-free s, one by one,
     its elements that are not in T leaves exactly the elements in T, in their order:  erase_fold(s, keep(s, not T), len) = keep(s, T).
     Tc must be the complement of T."""
     y = Const('y', Name)
@@ -203,6 +203,6 @@ def st_erase_fold_keep(s, T, Tc):
 
 
 def st_fold_len(xs):
-    """lemma.fold_len (ASSUMED, validated by selftest): de-duplicating keeps the length iff there were no repeats, and then it is the identity."""
+    """lemma.fold_len (proved in Lean: lemmas/Seq.lean `lemma_fold_len`; also validated by selftest): de-duplicating keeps the length iff there were no repeats, and then it is the identity."""
     u = fold_add(empty, xs, slen(xs))
     return And((slen(u) == slen(xs)) == nodup(xs), Implies(nodup(xs), u == xs))
